@@ -109,6 +109,7 @@ pub fn run(args: &[String]) -> i32 {
                 for (name, mut f) in targets {
                     let mut counts = BTreeMap::new();
                     for _ in 0..n {
+                        crate::util::beat();
                         *counts.entry(f(&mut rng)).or_insert(0) += 1;
                     }
                     tally(&mut out, ri, name, n, counts, 0);
@@ -151,6 +152,7 @@ pub fn run(args: &[String]) -> i32 {
                     for (name, mut f) in targets {
                         let mut counts = BTreeMap::new();
                         for _ in 0..m {
+                        crate::util::beat();
                             *counts.entry(f(&mut rng)).or_insert(0) += 1;
                         }
                         tally(&mut out, ri, &name, m, counts, 0);
@@ -195,6 +197,7 @@ pub fn run(args: &[String]) -> i32 {
                         let mut ones = vec![0u64; len];
                         let mut bad_len = 0u64;
                         for _ in 0..m {
+                        crate::util::beat();
                             let c = f(&mut rng);
                             if c.len() != len {
                                 bad_len += 1;
@@ -233,6 +236,7 @@ pub fn run(args: &[String]) -> i32 {
                 for (name, mut f) in targets {
                     let mut counts = BTreeMap::new();
                     for _ in 0..n {
+                        crate::util::beat();
                         *counts.entry(json!([f(&mut rng).min(2)]).to_string()).or_insert(0) += 1;
                     }
                     tally(&mut out, ri, name, n, counts, 0);
@@ -245,6 +249,7 @@ pub fn run(args: &[String]) -> i32 {
                 for target in ["one_over_length_bits_long", "one_over_length_vec_long"] {
                     let mut flips = 0u64;
                     for _ in 0..runs {
+                        crate::util::beat();
                         flips += if target.contains("bits") {
                             WithOneOverLength.mutate(Bitstring { bits: vec![false; len] }, &mut rng).expect("len").bits.iter().filter(|b| **b).count() as u64
                         } else {
@@ -265,6 +270,7 @@ pub fn run(args: &[String]) -> i32 {
                     let mut patterns = BTreeMap::new();
                     let (other, mut total_len) = (0u64, 0u64);
                     for _ in 0..n {
+                        crate::util::beat();
                         let child: Vec<i64> = if target == "umad_vector" {
                             let parent: Vector<i64> = (1..=plen as i64).collect();
                             let Ok(c) = Umad::new(add, del, NewInt).mutate(parent, &mut rng);
@@ -309,6 +315,7 @@ pub fn run(args: &[String]) -> i32 {
                     let mut counts = BTreeMap::new();
                     let mut other = 0u64;
                     for _ in 0..n {
+                        crate::util::beat();
                         match f(&mut rng) {
                             PushGene::Close => *counts.entry("0".to_string()).or_insert(0) += 1,
                             PushGene::Instruction(PushInstruction::IntInstruction(IntInstruction::Push(p))) => {
